@@ -19,7 +19,7 @@ LEVEL_NOTE = ("Trusted: Python-level socket._accept shadow sees every accept of 
               "clock only bounds waiting (exceeded => inconclusive).")
 RULE = "cases = lifespan script x phase x client activity x worker; non-trivial = the lifespan application was started; distinct = case hash"
 ASSUMPTIONS = ["the kernel may complete TCP handshakes in the listen backlog before accept(); only accept() is judged",
-               "an application that returns from lifespan without completing start-up is not judged (statement is silent)"]
+               "whether serving starts after an application returns from lifespan without completing start-up is not judged (statement is silent); only that the worker does not fail internally"]
 MIN_DECISIVE = {"order": 8, "failure-aborts": 4, "shutdown-once": 6, "state-isolation": 2}
 SHARDS = 16
 
@@ -39,6 +39,9 @@ def _startup_scripts():
         "raise_before_receive": [["sleep", 0.15], ["raise", "Exception"]],
         "raise_after_receive": [["recv"], ["sleep", 0.15], ["raise", "Exception"]],
         "hang": [["recv"], ["sleep", 30.0]],
+        # leaves the lifespan scope without a word: like raising, it will never complete start-up, and must not take the worker down
+        "return_immediately": [["return"]],
+        "return_after_receive": [["recv"], ["sleep", 0.15], ["return"]],
         "unknown_message": [["recv"], ["sleep", 0.15], ["send", {"type": "lifespan.bogus"}]],
     }
 
@@ -181,6 +184,8 @@ def run_one(case, tally):
             break
     ls_exit = first(lambda e: e[2] == "app" and e[3] == "exit" and e[4]["inst"] == ls_inst)
     raised = ls_exit[0] if ls_exit is not None and ls_exit[4]["outcome"] != "return" else None
+    if case["script"] in ("return_immediately", "return_after_receive") and ls_exit is not None:
+        raised = ls_exit[0]  # left the scope without a word: nothing before that instant may be served; afterwards is not judged
     gate = min([x for x in (complete, raised) if x is not None], default=None)
     http_starts = [e for e in ev if e[2] == "app" and e[3] == "start" and e[4]["scope"].get("type") == "http"]
     accepts = [e for e in ev if e[2] == "net" and e[3] == "accept"]
@@ -206,6 +211,21 @@ def run_one(case, tally):
         elif script in ("complete", "complete_slow") and case["activity"] == "hammer":
             if not http_starts:
                 tally.inconclusive["no-request-served-after-startup"] += 1
+        elif script in ("return_immediately", "return_after_receive"):
+            # the statement does not say whether serving starts; an internal error of the worker is not an answer either way
+            tally.clause("return-early-no-crash")
+            if isinstance(h.result, tuple) and "LifespanFailureError" not in h.result[1] and "LifespanTimeoutError" not in h.result[1]:
+                findings.append({"clause": "order", "sig": "C14.return-early/worker-crashed/%s" % be, "backend": be,
+                                 "detail": "lifespan application returned without completing start-up (%s); serve() raised %s" % (
+                                     script, h.result[1].strip().splitlines()[-1][:200])})
+        elif script in ("raise_before_receive", "raise_after_receive") and case["activity"] == "hammer":
+            # an application that raises has shown that it does not support lifespan: serving starts (the client hammered for 1.6 s,
+            # the application raised after 0.15 s; start-up timeout is 5 s)
+            tally.clause("serves-without-lifespan")
+            if isinstance(h.result, tuple) or not http_starts:
+                findings.append({"clause": "order", "sig": "C14.no-lifespan-support/not-served/%s" % be, "backend": be,
+                                 "detail": "lifespan application raised (%s) but %d requests were served in the following 1.4 s; serve() result %r" % (
+                                     script, len(http_starts), h.result if not isinstance(h.result, tuple) else h.result[1][-200:])})
     elif phase == "shutdown":
         tally.clause("shutdown-once")
         sd = [e for e in ev if e[2] == "app" and e[3] == "recv" and e[4]["inst"] == ls_inst and e[4]["msg"].get("type") == "lifespan.shutdown"]
